@@ -61,4 +61,264 @@ Section WithOracles.
     - destruct H as (H & _). apply C in H. discriminate.
     - destruct H as (H & _). apply C in H. discriminate.
   Qed.
+
+  (* ---- the three checks ------------------------------------------------------- *)
+  Lemma check_sums_ok fs : check_sums sha1 fs = true -> forall f, In f fs -> file_ok f.
+  Proof.
+    induction fs as [|g fs IH]; simpl; intros H f Hf; [destruct Hf|].
+    assert (check_sums sha1 fs = true /\ file_ok g) as [H1 H2].
+    { unfold PkgAuthSpec.file_ok. destruct (f_kind g) eqn:K.
+      - destruct (f_sum g) as [| |d] eqn:S; try discriminate.
+        + split; [exact H|]. intros _. split; [discriminate | intros d E; discriminate].
+        + apply andb_true_iff in H. destruct H as [Ha Hb]. split; [exact Hb|]. intros _.
+          split; [discriminate|]. intros d' E. inversion E; subst. apply bytes_eqb_eq; exact Ha.
+      - split; [exact H | intro X; discriminate X].
+      - split; [exact H | intro X; discriminate X]. }
+    destruct Hf as [->|Hf]; [exact H2 | apply IH; assumption].
+  Qed.
+
+  Lemma check_sums_mismatch fs f d :
+    In f fs -> f_kind f = FReg -> f_sum f = SumSome d -> d <> sha1 (f_body f) -> check_sums sha1 fs = false.
+  Proof.
+    intros Hf K S NE. destruct (check_sums sha1 fs) eqn:C; [|reflexivity].
+    destruct (check_sums_ok fs C f Hf K) as [_ H]. exfalso. apply NE. apply H. exact S.
+  Qed.
+
+  Lemma verify_expanded_spec h ch dh c :
+    verify_expanded h ch dh c = true ->
+    h_sum h = Some ch /\ forall v, In v (c_datahash c) -> v <> "" -> v = hex dh.
+  Proof.
+    unfold verify_expanded. destruct (h_sum h) as [w|]; [|discriminate]. intro H.
+    apply andb_true_iff in H. destruct H as [H1 H2]. apply bytes_eqb_eq in H1; subst.
+    split; [reflexivity|]. intros v Hv NE. rewrite forallb_forall in H2. specialize (H2 v Hv).
+    apply orb_true_iff in H2. destruct H2 as [E|E]; apply String.eqb_eq in E; congruence.
+  Qed.
+
+  (* ---- the on-disk cache -------------------------------------------------------- *)
+  (* the population invariant: every entry is stored under the digest of its own
+     bytes, and every data section stored passed the per-file check *)
+  Definition cache_ok (k : cache) : Prop :=
+    (forall s c, In (s, c) (k_ctl k) -> s = sha1 (c_raw c)) /\
+    (forall n d, In (n, d) (k_dat k) -> n = hex (sha256 (d_raw d)) /\ check_sums sha1 (d_files d) = true).
+
+  Lemma empty_cache_ok : cache_ok empty_cache.
+  Proof. split; intros ? ? H; destruct H. Qed.
+
+  (* a hit hands back what is stored under the expected names; nothing is hashed *)
+  Lemma cached_package_by_name k h x :
+    cached_package k h = Some x ->
+    h_q1 h = true /\ exists sum dh,
+      h_sum h = Some sum /\ In (sum, x_ctl x) (k_ctl k) /\
+      c_datahash (x_ctl x) = [dh] /\ In (dh, x_dat x) (k_dat k) /\ x_ctl_hash x = sum.
+  Proof.
+    unfold cached_package. destruct (h_q1 h); [|discriminate].
+    destruct (h_sum h) as [sum|]; [|discriminate].
+    destruct (assoc_b sum (k_ctl k)) as [c|] eqn:A; [|discriminate].
+    destruct (c_datahash c) as [|dh [|? ?]] eqn:Dh; try discriminate.
+    destruct (assoc_s dh (k_dat k)) as [d|] eqn:Ad; [|discriminate].
+    destruct (is_hex dh); [|discriminate]. intro H. inversion H; subst; simpl.
+    split; [reflexivity|]. exists sum, dh. apply assoc_b_in in A. apply assoc_s_in in Ad. auto.
+  Qed.
+
+  Lemma cached_package_chain k h x : cache_ok k -> cached_package k h = Some x -> Chain h x.
+  Proof.
+    intros [Kc Kd] H. apply cached_package_by_name in H.
+    destruct H as (_ & sum & dh & Hs & Ic & Dh & Id & _).
+    specialize (Kc _ _ Ic). destruct (Kd _ _ Id) as [Kn Kf].
+    split; [rewrite Hs, Kc; reflexivity|]. split.
+    - intros v Hv _. rewrite Dh in Hv. destruct Hv as [<-|[]]. exact Kn.
+    - apply check_sums_ok. exact Kf.
+  Qed.
+
+  (* "an existing destination wins" is harmless when it holds the same member:
+     what collision resistance gives a content-addressed store *)
+  Definition dst_same (k : cache) (a : apkfile) : Prop :=
+    (forall c', In (sha1 (c_raw (a_ctl a)), c') (k_ctl k) -> c' = a_ctl a) /\
+    (forall d', In (hex (sha256 (d_raw (a_dat a))), d') (k_dat k) -> d' = a_dat a).
+
+  Lemma cache_package_spec k a :
+    cache_ok k -> dst_same k a -> check_sums sha1 (d_files (a_dat a)) = true ->
+    let ch := sha1 (c_raw (a_ctl a)) in let dh := sha256 (d_raw (a_dat a)) in
+    forall k' x, cache_package k (a_ctl a) (a_dat a) ch dh = (k', x) ->
+      cache_ok k' /\ x_ctl x = a_ctl a /\ x_dat x = a_dat a /\ x_ctl_hash x = ch.
+  Proof.
+    intros [Kc Kd] [Sc Sd] Cs ch dh k' x H. unfold cache_package in H. fold ch dh in H.
+    inversion H; subst k' x; clear H. simpl.
+    assert (match assoc_b ch (match assoc_b ch (k_ctl k) with Some _ => k_ctl k | None => (ch, a_ctl a) :: k_ctl k end)
+            with Some c' => c' | None => a_ctl a end = a_ctl a) as E1.
+    { destruct (assoc_b ch (k_ctl k)) as [c'|] eqn:A.
+      - rewrite A. apply Sc. apply assoc_b_in. exact A.
+      - simpl. assert (bytes_eqb ch ch = true) as R by (apply bytes_eqb_eq; reflexivity). rewrite R. reflexivity. }
+    assert (match assoc_s (hex dh) (match assoc_s (hex dh) (k_dat k) with Some _ => k_dat k | None => (hex dh, a_dat a) :: k_dat k end)
+            with Some d' => d' | None => a_dat a end = a_dat a) as E2.
+    { destruct (assoc_s (hex dh) (k_dat k)) as [d'|] eqn:A.
+      - rewrite A. apply Sd. apply assoc_s_in. exact A.
+      - simpl. rewrite String.eqb_refl. reflexivity. }
+    split; [|auto]. split; simpl.
+    - intros s c Hin. destruct (assoc_b ch (k_ctl k)); [apply Kc; exact Hin|].
+      destruct Hin as [Hin|Hin]; [inversion Hin; subst; reflexivity | apply Kc; exact Hin].
+    - intros n d Hin. destruct (assoc_s (hex dh) (k_dat k)); [apply Kd; exact Hin|].
+      destruct Hin as [Hin|Hin]; [inversion Hin; subst; split; [reflexivity | exact Cs] | apply Kd; exact Hin].
+  Qed.
+
+  Definition opt_cache_ok (k : option cache) : Prop := match k with Some kc => cache_ok kc | None => True end.
+  Definition opt_dst_same (k : option cache) (s : option apkfile) : Prop :=
+    match k, s with Some kc, Some a => dst_same kc a | _, _ => True end.
+
+  (* ---- expandPackage ------------------------------------------------------------- *)
+  Lemma expand_uncached_chain k h served x k' :
+    opt_cache_ok k -> opt_dst_same k served ->
+    expand_uncached sha1 sha256 k h served = (XOk x, k') -> Chain h x /\ opt_cache_ok k'.
+  Proof.
+    intros Ok Same. unfold expand_uncached.
+    destruct (match k with Some kc => cached_package kc h | None => None end) as [x0|] eqn:Hit.
+    - intro H. injection H as Hx Hk. subst x0 k'. split; [|exact Ok].
+      destruct k as [kc|]; [|discriminate]. eapply cached_package_chain; eauto.
+    - destruct served as [a|]; [|discriminate].
+      destruct (check_sums sha1 (d_files (a_dat a))) eqn:Cs; cbn [negb]; [|discriminate].
+      destruct (verify_expanded h (sha1 (c_raw (a_ctl a))) (sha256 (d_raw (a_dat a))) (a_ctl a)) eqn:V; cbn [negb]; [|discriminate].
+      apply verify_expanded_spec in V. destruct V as [V1 V2].
+      destruct k as [kc|].
+      + destruct (cache_package kc (a_ctl a) (a_dat a) (sha1 (c_raw (a_ctl a))) (sha256 (d_raw (a_dat a)))) as [kc' x1] eqn:CP.
+        intro H. inversion H; subst.
+        destruct (cache_package_spec kc a Ok Same Cs _ _ CP) as (Ok' & E1 & E2 & _).
+        split; [|exact Ok']. unfold PkgAuthSpec.Chain. rewrite E1, E2.
+        split; [exact V1|]. split; [exact V2 | apply check_sums_ok; exact Cs].
+      + intro H. inversion H; subst. split; [|exact I]. unfold PkgAuthSpec.Chain; simpl.
+        split; [exact V1|]. split; [exact V2 | apply check_sums_ok; exact Cs].
+  Qed.
+
+  Lemma expand_uncached_keeps_cache_ok k h served r k' :
+    opt_cache_ok k -> opt_dst_same k served ->
+    expand_uncached sha1 sha256 k h served = (r, k') -> opt_cache_ok k'.
+  Proof.
+    intros Ok Same H. destruct r as [x|e]; [eapply expand_uncached_chain; eauto|].
+    unfold expand_uncached in H.
+    destruct (match k with Some kc => cached_package kc h | None => None end); [discriminate|].
+    destruct served as [a|]; [|inversion H; subst; exact Ok].
+    destruct (negb (check_sums sha1 (d_files (a_dat a)))); [inversion H; subst; exact Ok|].
+    destruct (negb (verify_expanded h _ _ (a_ctl a))); [inversion H; subst; exact Ok|].
+    destruct k as [kc|]; [|discriminate].
+    destruct (cache_package kc _ _ _ _); discriminate.
+  Qed.
+
+  (* a per-file mismatch aborts the fetch path *)
+  Lemma expand_uncached_file_mismatch k h a f d :
+    (match k with Some kc => cached_package kc h | None => None end) = None ->
+    In f (d_files (a_dat a)) -> f_kind f = FReg -> f_sum f = SumSome d -> d <> sha1 (f_body f) ->
+    expand_uncached sha1 sha256 k h (Some a) = (XErr ESums, k).
+  Proof.
+    intros Miss Hf K S NE. unfold expand_uncached. rewrite Miss.
+    rewrite (check_sums_mismatch _ f d Hf K S NE). reflexivity.
+  Qed.
+
+  (* Chain depends on the handle only through the checksum it records *)
+  Lemma chain_same_sum h h' x : h_sum h = h_sum h' -> Chain h x -> Chain h' x.
+  Proof. unfold PkgAuthSpec.Chain. intros E (A & B & C). rewrite <- E. auto. Qed.
+
+  (* the process memo: every stored success satisfies the chain for the
+     checksum [su] associates with its URL *)
+  Definition memo_inv (su : string -> option (list N)) (m : memo) : Prop :=
+    forall u r x, assoc_s u m = Some r -> r = XOk x ->
+      exists h0, h_sum h0 = su u /\ Chain h0 x.
+
+  Lemma expand_package_chain su m k h served r k' m' :
+    memo_inv su m -> opt_cache_ok k -> opt_dst_same k served ->
+    h_sum h = su (h_url h) ->
+    expand_package sha1 sha256 m k h served = (r, k', m') ->
+    (forall x, r = XOk x -> Chain h x) /\ opt_cache_ok k' /\ memo_inv su m'.
+  Proof.
+    intros MI Ok Same Hs. unfold expand_package. destruct k as [kc|].
+    - destruct (assoc_s (h_url h) m) as [r0|] eqn:A.
+      + intro H. inversion H; subst. split; [|split; assumption].
+        intros x E. destruct (MI _ _ x A E) as (h0 & S0 & C0). eapply chain_same_sum; [|exact C0]. congruence.
+      + destruct (expand_uncached sha1 sha256 (Some kc) h served) as [r1 k1] eqn:EU.
+        intro H. inversion H; subst.
+        assert (forall x, r = XOk x -> Chain h x) as CH.
+        { intros x E; subst. eapply expand_uncached_chain; eauto. }
+        split; [exact CH|]. split; [eapply expand_uncached_keeps_cache_ok; eauto|].
+        intros u r2 x A2 E2. simpl in A2. destruct (String.eqb u (h_url h)) eqn:Eu.
+        * apply String.eqb_eq in Eu; subst u. inversion A2; subst. exists h. split; [exact Hs | apply CH; reflexivity].
+        * eapply MI; eauto.
+    - destruct (expand_uncached sha1 sha256 None h served) as [r1 k1] eqn:EU.
+      intro H. inversion H; subst. split; [|split; [eapply expand_uncached_keeps_cache_ok; eauto | exact MI]].
+      intros x E; subst. eapply expand_uncached_chain; eauto.
+  Qed.
+
+  (* under collision resistance, stated as hypotheses on the oracles, the chain
+     pins the installed members to the ones the index entry describes *)
+  Lemma chain_pins_bytes h x g :
+    (forall a b, sha1 a = sha1 b -> a = b) ->
+    (forall a b, hex (sha256 a) = hex (sha256 b) -> a = b) ->
+    (forall c c', c_raw c = c_raw c' -> c_datahash c = c_datahash c') ->
+    h_sum h = Some (sha1 (c_raw (a_ctl g))) ->
+    (exists dh, In dh (c_datahash (a_ctl g)) /\ dh <> "" /\ dh = hex (sha256 (d_raw (a_dat g)))) ->
+    Chain h x ->
+    c_raw (x_ctl x) = c_raw (a_ctl g) /\ d_raw (x_dat x) = d_raw (a_dat g).
+  Proof.
+    intros CR1 CR2 Fun Hs (dh & Hin & NE & Hd) (A & B & _).
+    assert (c_raw (x_ctl x) = c_raw (a_ctl g)) as E.
+    { apply CR1. rewrite Hs in A. inversion A. reflexivity. }
+    split; [exact E|]. apply CR2. rewrite <- Hd. symmetry. apply B; [|exact NE].
+    rewrite (Fun _ _ E). exact Hin.
+  Qed.
 End WithOracles.
+
+(* ---- installation ------------------------------------------------------------- *)
+Definition reg_files (fs : list dfile) : list (string * list N) :=
+  List.flat_map (fun f => match f_kind f with FReg => [(f_name f, f_body f)] | _ => [] end) fs.
+
+(* whatever is installed is the data section's own regular files *)
+Lemma install_files_view lazy : forall fs out, install_files lazy fs = Some out -> out = reg_files fs.
+Proof.
+  induction fs as [|f fs IH]; simpl; intros out H; [inversion H; reflexivity|].
+  destruct (match f_kind f, f_sum f with
+            | FDir, _ => true | FReg, SumBad => false | FReg, SumNone => negb lazy | FReg, SumSome _ => true
+            | FSym, SumSome _ => true | FSym, SumNone => negb lazy | FSym, SumBad => negb lazy end); [|discriminate].
+  destruct (install_files lazy fs) as [o|]; [|discriminate]. inversion H; subst.
+  rewrite (IH o eq_refl). destruct (f_kind f); reflexivity.
+Qed.
+
+(* lazy install: a regular file or symlink without a recorded checksum aborts *)
+Lemma lazy_missing_aborts : forall fs f,
+  In f fs -> (f_kind f = FReg \/ f_kind f = FSym) -> f_sum f = SumNone -> install_files true fs = None.
+Proof.
+  induction fs as [|g fs IH]; intros f Hf K S; [destruct Hf|]. simpl.
+  destruct Hf as [->|Hf].
+  - rewrite S. destruct K as [K|K]; rewrite K; reflexivity.
+  - rewrite (IH f Hf K S). destruct (f_kind g); destruct (f_sum g); reflexivity.
+Qed.
+
+(* streaming install: a missing checksum is recomputed; only an undecodable
+   record on a regular file aborts *)
+Lemma streaming_installs : forall fs,
+  (forall f, In f fs -> f_kind f = FReg -> f_sum f <> SumBad) ->
+  install_files false fs = Some (reg_files fs).
+Proof.
+  induction fs as [|g fs IH]; intros H; [reflexivity|]. simpl.
+  rewrite IH by (intros f Hf; apply H; right; exact Hf).
+  pose proof (H g (or_introl eq_refl)) as Hg.
+  destruct (f_kind g) eqn:K; destruct (f_sum g) eqn:S; simpl; try reflexivity.
+  exfalso. apply (Hg eq_refl). reflexivity.
+Qed.
+
+(* ---- the process memo defeats the chain (finding C05-F1) ------------------------- *)
+Definition idf (b : list N) : list N := b.
+Definition wit_ctl (n : N) : control := {| c_raw := [n]; c_desc := ""; c_datahash := [] |}.
+Definition wit_apk (n : N) : apkfile := {| a_ctl := wit_ctl n; a_dat := {| d_raw := [n]; d_files := [] |} |}.
+Definition wit_handle (n : N) : handle := {| h_url := "u"; h_q1 := true; h_sum := Some [n] |}.
+
+Lemma memo_by_url_refutes_chain :
+  exists h1 h2 a1 a2 r1 k1 m1 x k2 m2,
+    h_url h1 = h_url h2 /\
+    expand_package idf idf [] (Some empty_cache) h1 (Some a1) = (r1, k1, m1) /\
+    expand_package idf idf m1 k1 h2 (Some a2) = (XOk x, k2, m2) /\
+    Chain idf idf h2 (match expand_uncached idf idf (Some empty_cache) h2 (Some a2) with (XOk y, _) => y | _ => x end) /\
+    ~ Chain idf idf h2 x.
+Proof.
+  exists (wit_handle 1), (wit_handle 2), (wit_apk 1), (wit_apk 2).
+  eexists _, _, _, _, _, _. split; [reflexivity|]. split; [vm_compute; reflexivity|].
+  split; [vm_compute; reflexivity|]. split.
+  - vm_compute. split; [reflexivity|]. split; [intros ? []|intros ? []].
+  - vm_compute. intros (A & _). discriminate A.
+Qed.
